@@ -263,8 +263,17 @@ fn deps_mode(raw: &[Value], scratch: &Path) -> Summary {
         if let Some(os) = os { s.push_str(&format!("\n[platform]\nos = \"{os}\"\n")); }
         fs::write(bpdir.join("package.toml"), s).unwrap();
         let mut map = BTreeMap::new();
-        map.insert("verif/known".parse::<BuildpackId>().unwrap(), known_path.clone());
-        map.insert("verif/unrelated".parse::<BuildpackId>().unwrap(), base.join("packaged/unrelated"));
+        // (nothing packaged yet at all: the map is empty when the descriptor needs no known id)
+        if kinds.iter().any(|k| k == "libcnb-known") || i % 2 == 1 {
+            map.insert("verif/known".parse::<BuildpackId>().unwrap(), known_path.clone());
+            map.insert("verif/unrelated".parse::<BuildpackId>().unwrap(), base.join("packaged/unrelated"));
+        }
+        // the destination may hold the (longer) output of an earlier packaging run
+        if i % 2 == 0 {
+            let stale: String = (0..30).map(|k| format!("\n[[dependencies]]\nuri = \"/stale/dependency/of/an/earlier/run/{k}\"\n")).collect();
+            fs::write(dest.join("package.toml"), format!("[buildpack]\nuri = \".\"\n{stale}")).unwrap();
+            fs::write(dest.join("buildpack.toml"), format!("{bp_toml}# stale tail {}\n", "x".repeat(400))).unwrap();
+        }
         let r = package_composite_buildpack(&bpdir, &dest, &map);
         let mut problems = vec![];
         match (&r, expect_ok) {
